@@ -1,8 +1,10 @@
 // C13 harness, gogo-protobuf style codecs and the Tan Update record of raftpb
 // (plus client.Session) versus Model/CodecProto.v and Model/CodecUpdate.v.
 //
-// Values travel as whitespace separated tokens (grammar in tok* below, the same
-// in ocaml/c13/driver.ml). Decoded values are observed through their
+// Values travel as whitespace separated tokens (grammar in tw/tr below, the same
+// in ocaml/c13/driver.ml). nil and empty-but-non-nil are distinguished in the
+// case text: a byte string is `-` (nil), `=` (empty, non-nil) or hex; the
+// element count of a slice/map is `0` (nil), `=` (empty, non-nil) or n > 0. Decoded values are observed through their
 // re-encoding, which is injective on values. Go map iteration order is random:
 // before comparing, the encoder output is canonicalised by sorting the map
 // entries of Membership/Bootstrap by key (canon); the model encodes maps in
@@ -31,13 +33,22 @@ func (w *tw) u(x uint64)  { fmt.Fprintf(&w.b, " %d", x) }
 func (w *tw) i(x int32)   { fmt.Fprintf(&w.b, " %d", x) }
 func (w *tw) n(x int)     { fmt.Fprintf(&w.b, " %d", x) }
 func (w *tw) bo(x bool)   { fmt.Fprintf(&w.b, " %d", b01(x)) }
-func (w *tw) by(x []byte) { w.b.WriteString(" " + vh.Hex(x)) }
-func (w *tw) s(x string)  { w.by([]byte(x)) }
-func (w *tw) opt(x []byte) {
-	if x == nil {
-		w.b.WriteString(" ~")
+func (w *tw) by(x []byte) {
+	if x != nil && len(x) == 0 {
+		w.b.WriteString(" =")
 	} else {
-		w.by(x)
+		w.b.WriteString(" " + vh.Hex(x))
+	}
+}
+func (w *tw) s(x string)   { w.b.WriteString(" " + vh.Hex([]byte(x))) }
+func (w *tw) opt(x []byte) { w.by(x) }
+
+// cnt writes an element count: 0 = nil, "=" = empty but non-nil
+func (w *tw) cnt(n int, isNil bool) {
+	if n == 0 && !isNil {
+		w.b.WriteString(" =")
+	} else {
+		w.n(n)
 	}
 }
 func (w *tw) entry(e *pb.Entry) {
@@ -45,7 +56,7 @@ func (w *tw) entry(e *pb.Entry) {
 	w.u(e.RespondedTo); w.by(e.Cmd)
 }
 func (w *tw) entries(es []pb.Entry) {
-	w.n(len(es))
+	w.cnt(len(es), es == nil)
 	for i := range es {
 		w.entry(&es[i])
 	}
@@ -53,7 +64,7 @@ func (w *tw) entries(es []pb.Entry) {
 func (w *tw) state(s *pb.State) { w.u(s.Term); w.u(s.Vote); w.u(s.Commit) }
 func (w *tw) smap(m map[uint64]string) {
 	ks := sortedKeys(m)
-	w.n(len(ks))
+	w.cnt(len(ks), m == nil)
 	for _, k := range ks {
 		w.u(k); w.s(m[k])
 	}
@@ -64,7 +75,7 @@ func (w *tw) bmap(m map[uint64]bool) {
 		ks = append(ks, k)
 	}
 	sort.Slice(ks, func(i, j int) bool { return ks[i] < ks[j] })
-	w.n(len(ks))
+	w.cnt(len(ks), m == nil)
 	for _, k := range ks {
 		w.u(k); w.bo(m[k])
 	}
@@ -83,7 +94,7 @@ func (w *tw) mb(m *pb.Membership) {
 func (w *tw) sf(f *pb.SnapshotFile) { w.s(f.Filepath); w.u(f.FileSize); w.u(f.FileId); w.opt(f.Metadata) }
 func (w *tw) sn(s *pb.Snapshot) {
 	w.s(s.Filepath); w.u(s.FileSize); w.u(s.Index); w.u(s.Term); w.mb(&s.Membership)
-	w.n(len(s.Files))
+	w.cnt(len(s.Files), s.Files == nil)
 	for _, f := range s.Files {
 		w.sf(f)
 	}
@@ -108,25 +119,36 @@ func (r *tr) u() uint64    { v, err := strconv.ParseUint(r.next(), 10, 64); must
 func (r *tr) i32() int32   { v, err := strconv.ParseInt(r.next(), 10, 32); must(err); return int32(v) }
 func (r *tr) n() int       { v, err := strconv.Atoi(r.next()); must(err); return v }
 func (r *tr) bo() bool     { return r.next() == "1" }
-func (r *tr) by() []byte   { return vh.UnHex(r.next()) }
-func (r *tr) s() string    { return string(vh.UnHex(r.next())) }
-func (r *tr) opt() []byte {
+func (r *tr) by() []byte {
 	t := r.next()
-	if t == "~" {
-		return nil
-	}
-	if t == "-" {
+	if t == "=" {
 		return []byte{}
 	}
-	return vh.UnHex(t)
+	return vh.UnHex(t) // "-" = nil
+}
+func (r *tr) s() string    { return string(vh.UnHex(r.next())) }
+func (r *tr) opt() []byte  { return r.by() }
+
+// cnt reads an element count; empty reports "=" (empty but non-nil)
+func (r *tr) cnt() (n int, empty bool) {
+	t := r.next()
+	if t == "=" {
+		return 0, true
+	}
+	v, err := strconv.Atoi(t)
+	must(err)
+	return v, false
 }
 func (r *tr) entry() pb.Entry {
 	return pb.Entry{Term: r.u(), Index: r.u(), Type: pb.EntryType(r.i32()), Key: r.u(), ClientID: r.u(),
 		SeriesID: r.u(), RespondedTo: r.u(), Cmd: r.by()}
 }
 func (r *tr) entries() []pb.Entry {
-	n := r.n()
+	n, empty := r.cnt()
 	var es []pb.Entry
+	if empty {
+		es = []pb.Entry{}
+	}
 	for i := 0; i < n; i++ {
 		es = append(es, r.entry())
 	}
@@ -134,8 +156,11 @@ func (r *tr) entries() []pb.Entry {
 }
 func (r *tr) state() pb.State { return pb.State{Term: r.u(), Vote: r.u(), Commit: r.u()} }
 func (r *tr) smap() map[uint64]string {
-	n := r.n()
+	n, empty := r.cnt()
 	var m map[uint64]string
+	if empty {
+		m = map[uint64]string{}
+	}
 	for i := 0; i < n; i++ {
 		if m == nil {
 			m = map[uint64]string{}
@@ -146,8 +171,11 @@ func (r *tr) smap() map[uint64]string {
 	return m
 }
 func (r *tr) bmap() map[uint64]bool {
-	n := r.n()
+	n, empty := r.cnt()
 	var m map[uint64]bool
+	if empty {
+		m = map[uint64]bool{}
+	}
 	for i := 0; i < n; i++ {
 		if m == nil {
 			m = map[uint64]bool{}
@@ -165,7 +193,10 @@ func (r *tr) sf() pb.SnapshotFile {
 }
 func (r *tr) sn() pb.Snapshot {
 	s := pb.Snapshot{Filepath: r.s(), FileSize: r.u(), Index: r.u(), Term: r.u(), Membership: r.mb()}
-	n := r.n()
+	n, empty := r.cnt()
+	if empty {
+		s.Files = []*pb.SnapshotFile{}
+	}
 	for i := 0; i < n; i++ {
 		f := r.sf()
 		s.Files = append(s.Files, &f)
@@ -260,8 +291,11 @@ func readValue(ty string, r *tr) codec {
 		m := r.msg()
 		return &m
 	case "bt":
-		n := r.n()
+		n, empty := r.cnt()
 		b := &pb.MessageBatch{}
+		if empty {
+			b.Requests = []pb.Message{}
+		}
 		for i := 0; i < n; i++ {
 			b.Requests = append(b.Requests, r.msg())
 		}
